@@ -169,6 +169,13 @@ func c01R30(ic *IC, r *Report) {
 				if se, ok := unparen(c.Fun).(*ast.SelectorExpr); ok && strings.HasPrefix(se.Sel.Name, "Set") && rootsAtDest(se.X) {
 					writes = append(writes, c)
 				}
+				// a store function of the generator (store(f, v)) writes the destination
+				if fid := identOf(c.Fun); fid != nil && len(c.Args) == 2 {
+					if sg, ok := info.TypeOf(fid).Underlying().(*types.Signature); ok && sg.Params().Len() == 2 && sg.Results().Len() == 0 &&
+						isNamedPtr(sg.Params().At(0).Type(), "frame") && types.TypeString(sg.Params().At(1).Type(), nil) == "reflect.Value" {
+						writes = append(writes, c)
+					}
+				}
 				return true
 			})
 			var bad []string
